@@ -21,7 +21,7 @@ type Case struct {
 	Timing string `json:"timing"`
 	Ctx    string `json:"ctx"`
 	Req    string `json:"req"`               // small | large (1 MiB request the plugin never reads)
-	BigMiB int    `json:"big_mib,omitempty"` // size of the oversized streams (65 or 1024)
+	BigMiB int    `json:"big_mib,omitempty"` // size of the oversized streams (65 or 512)
 }
 
 func (c Case) key() string {
